@@ -912,13 +912,16 @@ fn run_stream(tier: Tier, c: &Stream) -> Outcome {
             o.push("C19:streaming:roundtrip-broken", format!("{}: {} MiB: ok={} bytes={} verified={} {}", c.name, s >> 20, r.read_ok, r.read_bytes, r.verified, r.err));
         }
     }
+    // bounded buffer: independent of the message size.  The allowance covers allocator size
+    // classes and one more buffer of the pipeline's unit being alive at the peak (which buffers
+    // coexist depends on how the sink drains; measured: +1 partial-chunk buffer for zlib at
+    // 256 MiB) - growth with the message would be hundreds of units
+    let allowance = 256 * 1024 + 2 * unit;
     for (_, r) in &runs[base_i + 1..] {
-        // bounded buffer: independent of the message size (an allowance for allocator-size
-        // classes and growth strategies of constant-size buffers)
-        if r.build_peak > small.build_peak + 256 * 1024 {
+        if r.build_peak > small.build_peak + allowance {
             o.push("C19:streaming:builder-peak-grows-with-message", format!("{}: {summary}", c.name));
         }
-        if c.v1_mode != 2 && r.read_peak > small.read_peak + 256 * 1024 {
+        if c.v1_mode != 2 && r.read_peak > small.read_peak + allowance {
             o.push("C19:streaming:reader-peak-grows-with-message", format!("{}: {summary}", c.name));
         }
     }
@@ -1047,7 +1050,7 @@ pub fn check(ctx: &Ctx) {
     ctx.run_space(
         "streaming",
         true,
-        "messages of 1 and 16 MiB (thorough: 256 MiB) produced by MessageBuilder::from_reader from an allocation-free source and consumed by Message::from_bytes / from_armor -> decrypt -> decompress -> 4 KiB reads -> verify through a fixed 256 KiB ring buffer between two threads, for 9 (13) configurations (literal, partial sizes, zlib/deflate/bzip2, one-pass signed, SEIPDv2 with 64 B / 64 KiB / 4 MiB chunks, SEIPDv1 streaming, armored stack): per-thread allocation peak at the larger sizes <= peak at the first size that fills the pipeline's largest unit (AEAD chunk / partial chunk) + 256 KiB, and below a fixed ceiling (8 MiB + 8 x chunk + 4 x partial); SEIPDv1 CheckFirst with a 1 MiB limit must refuse every message above it while buffering <= 3.5 MiB",
+        "messages of 1 and 16 MiB (thorough: 256 MiB) produced by MessageBuilder::from_reader from an allocation-free source and consumed by Message::from_bytes / from_armor -> decrypt -> decompress -> 4 KiB reads -> verify through a fixed 256 KiB ring buffer between two threads, for 9 (13) configurations (literal, partial sizes, zlib/deflate/bzip2, one-pass signed, SEIPDv2 with 64 B / 64 KiB / 4 MiB chunks, SEIPDv1 streaming, armored stack): per-thread allocation peak at the larger sizes <= peak at the first size that fills the pipeline's largest unit (AEAD chunk / partial chunk) + 256 KiB + 2 units, and below a fixed ceiling (8 MiB + 8 x chunk + 4 x partial); SEIPDv1 CheckFirst with a 1 MiB limit must refuse every message above it while buffering <= 3.5 MiB",
         stream_cases(tier).into_par_iter(),
         |c| run_stream(tier, c),
     );
